@@ -71,6 +71,8 @@ func c05Witnesses() []c05Witness {
 		c05Witness{"pivot-on-chartsheet", []string{"h.new", "h.chartsheet " + hx("Chart1") + " " + s1 + " 13", "h.pivotdata " + s1, "h.pivot " + hx("Sheet1!A1:E8") + " " + hx("Chart1!G2:M34") + " " + hx("Pivot1") + " 3", "h.save"}},
 		c05Witness{"table-removecol", []string{"h.new", "h.table " + s1 + " A1:C3 " + hx("T") + " 0", "h.rmcol " + s1 + " A", "h.save"}},
 		c05Witness{"empty-entry-name", []string{"h.open Book1.xlsx", "h.table " + s2 + " J8:G6 " + hx("t1") + " 7", "h.copysheet 0 1", "h.formctl " + s2 + " D8 6 " + hx("txt"), "h.save"}},
+		c05Witness{"comment-dollar-ref", []string{"h.new", "h.comment " + s1 + " $B$2 " + hx("Au") + " " + hx("t"), "h.save"}},
+		c05Witness{"delslicer-dangling", []string{"h.new", "h.setrow " + s1 + " A1 " + hx("Month") + " " + hx("Year") + " " + hx("Type"), "h.table " + s1 + " A1:C3 " + hx("SlT1") + " 0", "h.slicer " + s1 + " " + hx("Month") + " C12 " + s1 + " " + hx("SlT1") + " 3", "h.delslicer " + hx("Month"), "h.save"}},
 		c05Witness{"vba-write", []string{"h.new", "h.vba", "h.save"}},
 		c05Witness{"rename-duplicate", []string{"h.new", "h.newsheet " + s2, "h.rensheet " + s1 + " " + s2, "h.save"}},
 		c05Witness{"dv-markup", []string{"h.new", "h.dv " + s1 + " A1:A3 4 1 " + hx("AND(A1<5,B1>\"&\")"), "h.save"}},
